@@ -120,11 +120,15 @@ Definition c03_nodata (c : ctx) : bool :=
 
 (* ------------------------------------------------------------------ results *)
 Definition safe {A} (r : res A) : Prop := match r with Ok _ | Exc _ => True | _ => False end.
-(* no access outside a buffer.  What remains possible under tokens_bounded alone is named:
-   OOB site_uninit_tag (the fixed-width extractor leaves tag[] unterminated: C06's data-field
-   defect), Diverge (F08), and Fuel (excluded by c03_decode_total) *)
-Definition no_overrun {A} (r : res A) : Prop :=
-  match r with OOB s => s = site_uninit_tag | _ => True end.
+(* no access outside a buffer and no exhausted fuel.  What remains possible under tokens_bounded
+   alone is named: Diverge (F08) and OOB site_uninit_tag (the fixed-width extractor leaves tag[]
+   unterminated, decode then reads stack bytes never written: C06's Length/data defect) *)
+Definition classified {A} (r : res A) : Prop :=
+  match r with
+  | Ok _ | Exc _ | Diverge => True
+  | OOB s => s = site_uninit_tag
+  | Fuel => False
+  end.
 
 (* ------------------------------------------------------------------ fast_atoi<int> UB (F09)
    retval = (retval << 3) + (retval << 1) + *str - '0'   on int, evaluated left to right.
